@@ -393,7 +393,7 @@ fn strings_sweep(first: u8, maxlen: usize) -> Value {
     json!({"inputs": st.inputs, "executions": st.executions, "dev_count": st.dev_count, "devs": st.devs, "distinct_observations": st.distinct_obs.len()})
 }
 
-fn encodings_corpus(nodes: usize) -> Vec<Vec<u8>> {
+pub fn encodings_corpus(nodes: usize) -> Vec<Vec<u8>> {
     let lv = leaves();
     let mut set: BTreeSet<Vec<u8>> = BTreeSet::new();
     for (t, _) in trees(nodes, 3, &lv) {
